@@ -21,7 +21,7 @@ const (
 	C07ChoiceCase   // target is a choice, an explicit case, a container inside a case
 	C07RPC          // rpc/action input/output (written and implicit), notifications
 	C07Collision    // conflicting augments
-	C07NonContainer // leaf, leaf-list, anyxml, anydata targets
+	C07NonContainer // leaf, leaf-list, anyxml, anydata targets, rpc and action nodes themselves
 	C07Missing      // missing targets, unknown prefix, broken chain
 	C07BodyError    // uses of an unknown grouping inside the augment body
 	C07Submodule    // targets in submodule trees, augments written inside submodules
@@ -423,7 +423,7 @@ func (g *c07g) bases(shape int) {
 	case C07RPC:
 		need = []int{3, 3, 4, 5}
 	case C07NonContainer:
-		need = []int{6}
+		need = []int{6, 3, 4}
 	case C07ActionNoIO:
 		need = []int{8}
 	case C07Mixed:
@@ -586,6 +586,10 @@ func c07leafish(kw string) bool {
 	return kw == "leaf" || kw == "leaf-list" || kw == "anyxml" || kw == "anydata"
 }
 
+// c07noChildren: targets that cannot be given children by an augment: leaf-like nodes, and rpc and
+// action nodes themselves (their only children are input and output).
+func c07noChildren(kw string) bool { return c07leafish(kw) || kw == "rpc" || kw == "action" }
+
 func c07resolve(root *c07sn, steps []string) *c07sn {
 	cur := root
 	for _, s := range steps {
@@ -636,8 +640,8 @@ type c07cand struct {
 	n   *c07sn
 }
 
-// cands lists nodes of the working forest accepted by ok; nodes below noTarget nodes, rpc/action
-// nodes themselves and (unless shorthand) nodes addressed through an implicit case are left out.
+// cands lists nodes of the working forest accepted by ok; nodes below noTarget nodes and (unless
+// shorthand) nodes addressed through an implicit case are left out.
 func (g *c07g) cands(shorthand bool, ok func(*c07sn) bool) []c07cand {
 	var out []c07cand
 	for _, m := range g.mods {
@@ -647,9 +651,6 @@ func (g *c07g) cands(shorthand bool, ok func(*c07sn) bool) []c07cand {
 		root := g.work[m.Name]
 		for _, k := range root.kids {
 			k.walk(func(n *c07sn) {
-				if n.kw == "rpc" || n.kw == "action" {
-					return
-				}
 				if n.flagged(func(x *c07sn) bool { return x.noTarget }) {
 					return
 				}
@@ -962,12 +963,34 @@ func (g *c07g) op(shape int) {
 		g.collision()
 	case C07NonContainer:
 		var cs []c07cand
-		if g.chance(0.3) {
+		rpcish := func(n *c07sn) bool { return n.kw == "rpc" || n.kw == "action" }
+		switch k := g.r.Intn(10); {
+		case k < 3:
 			// a leaf created by another augment
 			if c, found := g.anyTarget(nil); found && c.n.kw != "choice" {
 				w := g.writer(nil)
 				a := g.augOn(w, c, name, 0, func(a *Node, t *c07sn) { g.item(w, a, t, []int{0, 3, 4}[g.r.Intn(3)]) })
 				cs = g.cands(false, func(n *c07sn) bool { return c07leafish(n.kw) && n.aug == a.info.ID })
+			}
+		case k < 6:
+			// an rpc or action node itself (with or without written input/output)
+			cs = g.cands(false, rpcish)
+		case k == 6:
+			// an action grafted by another augment (inside a container of its body)
+			if c, found := g.anyTarget(func(n *c07sn) bool {
+				return n.kw != "choice" && !n.flagged(func(x *c07sn) bool {
+					return x.kw == "rpc" || x.kw == "action" || x.kw == "notification"
+				})
+			}); found {
+				w := g.writer(nil)
+				a := g.augOn(w, c, name, 0, func(a *Node, t *c07sn) {
+					cc := a.add("container", g.augName(w))
+					g.leaf(cc, g.augName(w))
+					g.rpcBody(w, cc.add("action", g.augName(w)), g.r.Intn(4))
+				})
+				cs = g.cands(false, func(n *c07sn) bool {
+					return n.kw == "action" && n.flagged(func(x *c07sn) bool { return x.aug == a.info.ID })
+				})
 			}
 		}
 		if len(cs) == 0 {
@@ -1390,7 +1413,7 @@ func (g *c07g) evaluate(s *C07Set) {
 			default:
 				a.info.Origin = "base"
 			}
-			if c07leafish(t.kw) {
+			if c07noChildren(t.kw) {
 				a.info.Expect = C07NoChildren
 				continue
 			}
